@@ -40,7 +40,7 @@ class Check(HCheck):
         prep = [al.R0, (al.page(A + L.long_stem(75, b"a")),), (al.page(A + L.long_stem(149, b"a") + b"p:k|"),)]
         sp.append(Space(Cfg("never"), [al.page(u, i % 2 == 0) for i, u in enumerate(shapes)], 1, roots=prep, name="shapes/one-insertion"))
         sp.append(Space(Cfg("never"), [al.page(u) for u in al.shape_lrus(2)], 2, name="shapes/two-insertions"))
-        cops = [al.page(Ax), al.page(Ax, True), al.page(Axy), al.pages((Ab, Aw)), al.create(C1), al.create(Ax), al.addprefix(Az, 0), al.rmprefix(A + b"p:q|"), al.rmprefix(Ax), al.rule(Ax, "path2"), al.rule(A, "path1"), al.LB_REPEAT, al.CB_KNOWN, al.move(Ab, 0), al.delete(0), al.as_iter(al.LB_REPEAT), al.crawl_alias(Ax, (Ab,), (Ab, Axy)), al.REOPEN, al.clear("domain", {Ax: "path2"})]
+        cops = [al.page(A + b"|p:x|"), al.page(A + b"||"), al.page(Ax), al.page(Ax, True), al.page(Axy), al.pages((Ab, Aw)), al.create(C1), al.create(Ax), al.addprefix(Az, 0), al.rmprefix(A + b"p:q|"), al.rmprefix(Ax), al.rule(Ax, "path2"), al.rule(A, "path1"), al.LB_REPEAT, al.CB_KNOWN, al.move(Ab, 0), al.delete(0), al.as_iter(al.LB_REPEAT), al.crawl_alias(Ax, (Ab,), (Ab, Axy)), al.REOPEN, al.clear("domain", {Ax: "path2"})]
         sp.append(Space(Cfg("domain"), cops, 4 if thorough else 3, roots=[al.R0, al.R1], name="core/domain"))
         return sp
 
